@@ -2,7 +2,7 @@
    property's scope).  [a_sync st]: empty buffer, cleared header. *)
 From PM.theories Require Import Base Expr Struct FrBaseA Lrc FrAscii FrSpecA.
 From PM.Generated Require Import GenFramerA.
-From PM.proofs Require Import FrA_lrc_proofs FrA_ascii_proofs.
+From PM.proofs Require Import FrA_lrc_proofs FrA_ascii_proofs FrA_ascii_resync_proofs.
 Open Scope list_scope.
 Open Scope Z_scope.
 
@@ -14,6 +14,26 @@ Theorem C11_after_sync_ascii : forall (dec : bytes -> dres) (c : cfg) (st : asta
               = (st', map (spec_delivery KAscii) vs, Done) /\ a_sync st'.
 Proof. exact ascii_after_sync. Qed.
 Print Assumptions C11_after_sync_ascii.
+
+(* RECOVERY FROM AN ARBITRARY STATE (any buffered garbage, any header — in particular every
+   reachable one): one read consisting of one or more valid frames either raises (exactly the
+   open finding below: a valid-LRC frame in the garbage whose PDU the decoder rejects) or ends
+   synchronised; by C11_after_sync_ascii every later read is then delivered completely.  Bound:
+   one read of valid traffic (<= the property's two maximum-size frames when one frame per read). *)
+Theorem C11_recover_ascii_partial : forall (dec : bytes -> dres) (c : cfg) (st : astate) (vs : list frame) st' ds o,
+  vs <> [] -> Forall (valid_frame KAscii dec c) vs ->
+  a_recv base lrc ascii dec c st (concat (map (spec_adu KAscii) vs)) = (st', ds, o) ->
+  o = Done -> a_sync st'.
+Proof. exact ascii_recover. Qed.
+Print Assumptions C11_recover_ascii_partial.
+
+(* with the serial handlers' reset-on-exception no hypothesis is left: from ANY state, after one
+   read of valid frames the receiver is synchronised *)
+Theorem C11_recover_ascii : forall (dec : bytes -> dres) (c : cfg) (st : astate) (vs : list frame),
+  vs <> [] -> Forall (valid_frame KAscii dec c) vs ->
+  a_sync (fst (fst (a_recv_h base lrc ascii dec c st (concat (map (spec_adu KAscii) vs))))).
+Proof. exact ascii_recover_handler. Qed.
+Print Assumptions C11_recover_ascii.
 
 (* valid traffic cut anywhere: the backlog is always a proper prefix of one frame; stated through
    C06_ascii's chunking theorem: all frames delivered for every division into reads *)
